@@ -484,7 +484,11 @@ pub fn generate(rng: &Rng, world: &World, tier: &str) -> C17 {
     let ctx_decoys = with_ctx && r.chance(1, 3);
     let arg_style = r.weighted(&[6, 2, 2, 2, 2, 1, 1]) as u64;
     let kernel_fault = if out.is_some() && out.as_deref() != Some("context.zip") && fault == Fault::None && io_plan.is_empty() && prior_crash.is_none() && r.chance(1, 8) {
-        if r.chance(1, 3) { "devfull".to_string() } else { format!("fsize={}", r.range(0, 1500)) }
+        match r.below(4) {
+            0 => "devfull".to_string(),
+            1 => "outdir".to_string(),
+            _ => format!("fsize={}", r.range(0, 1500)),
+        }
     } else {
         String::new()
     };
@@ -806,6 +810,9 @@ fn judge_archive(path: &str, expected: &[String], reference: &Reference, rep: &m
     }
 }
 
+/// A crash is a death by signal, a Rust panic (message on stderr, exit status 101) or an abort.
+/// A non-zero exit status together with a message is *not* a crash: the statement says how
+/// failures are reported ("as messages rather than crashes"), not which status they produce.
 fn crashed(o: &CliOut) -> Option<String> {
     if let Some(s) = o.signal {
         return Some(format!("killed by signal {s}"));
@@ -815,7 +822,7 @@ fn crashed(o: &CliOut) -> Option<String> {
         let msg = o.stderr.lines().skip_while(|l| !l.contains("panicked at")).nth(1).unwrap_or("");
         return Some(format!("{} {}", crate::exec::normalise_panic(l.trim()), msg.trim()));
     }
-    if o.code != Some(0) {
+    if matches!(o.code, Some(101) | Some(134) | Some(139)) {
         return Some(format!("exit status {:?}; stderr: {}", o.code, o.stderr.lines().next().unwrap_or("")));
     }
     None
@@ -830,7 +837,12 @@ fn reported_error(o: &CliOut, print: &str) -> Option<String> {
         "summary" => last.is_empty() || last == "-----",
         _ => last.starts_with("Total computation time: "),
     };
-    if normal { None } else { Some(last) }
+    if !normal {
+        return Some(last);
+    }
+    // a message on stderr (not a panic) counts as a report as well
+    let e = o.stderr.lines().find(|l| !l.trim().is_empty() && !l.contains("ZipWriter drop failed"));
+    e.map(|l| l.trim().to_string())
 }
 
 pub fn check(world: &World, sc: &C17, sandbox: &str) -> Report {
@@ -1127,7 +1139,11 @@ pub fn check(world: &World, sc: &C17, sandbox: &str) -> Report {
         let (arg, abs) = if sc.kernel_fault == "devfull" { ("/dev/full".to_string(), "/dev/full".to_string()) } else { (arg, abs) };
         args.push("-o".to_string());
         args.push(arg);
-        if sc.out_stale && o != "context.zip" && sc.kernel_fault != "devfull" {
+        if sc.kernel_fault == "outdir" {
+            // a directory sits where the archive is to be written
+            let _ = std::fs::create_dir_all(&abs);
+        }
+        if sc.out_stale && o != "context.zip" && sc.kernel_fault != "devfull" && sc.kernel_fault != "outdir" {
             // a previous, larger run wrote to the same path
             if let Some(parent) = std::path::Path::new(&abs).parent() {
                 let _ = std::fs::create_dir_all(parent);
@@ -1193,7 +1209,7 @@ pub fn check(world: &World, sc: &C17, sandbox: &str) -> Report {
     // is judged like one with a hard fault - an error is acceptable, a claimed success must be correct
     let kernel_fault = !sc.kernel_fault.is_empty() && sc.out.is_some();
     if kernel_fault {
-        rep.probe(if sc.kernel_fault == "devfull" { "kernel_fault_dev_full" } else { "kernel_fault_rlimit_fsize" }, 1);
+        rep.probe(match sc.kernel_fault.as_str() { "devfull" => "kernel_fault_dev_full", "outdir" => "kernel_fault_directory_at_output_path", _ => "kernel_fault_rlimit_fsize" }, 1);
     }
     let hard_fault = kernel_fault || fired_faults.iter().any(|(n, _)| !matches!(n.as_str(), "fault_short_write" | "fault_short_read" | "fault_clock_backward"));
     let write_fault_only = hard_fault && fired_faults.iter().all(|(n, _)| matches!(n.as_str(), "fault_short_write" | "fault_short_read" | "fault_clock_backward" | "fault_eio_write" | "fault_enospc" | "fault_efbig" | "fault_eio_close" | "fault_eio_seek" | "fault_eintr"));
@@ -1295,7 +1311,7 @@ pub fn check(world: &World, sc: &C17, sandbox: &str) -> Report {
     // --- bounded liveness: a fault-free re-run with valid inputs must succeed completely ---------
     // (when the bundle is updated in place, a faulty run has legitimately destroyed the context)
     let in_place = sc.out.as_deref() == Some("context.zip");
-    if (hard_fault || ctx_damaged) && !expect_message && !in_place && sc.kernel_fault != "devfull" {
+    if (hard_fault || ctx_damaged) && !expect_message && !in_place && sc.kernel_fault != "devfull" && sc.kernel_fault != "outdir" {
         if let Some((r, _)) = &refr {
             if ctx_damaged {
                 // repair the context: without -e if the formulae are plain, else skip
